@@ -417,4 +417,22 @@ theorem binnify_roundtrip (b : Nat) (hb : 1 ≤ b) :
 
 example : getChromsizes (binnify [25, 7, 10] 10) = [(0, 25), (1, 7), (2, 10)] := by decide
 
+theorem zipIdx_swap_snd (sizes : List Nat) (c0 : Nat) :
+    ((sizes.zipIdx c0).map fun p => (p.2, p.1)).map Prod.snd = sizes := by
+  induction sizes generalizing c0 with
+  | nil => rfl
+  | cons L rest ih => simp [List.zipIdx_cons, ih (c0 + 1)]
+
+/-- **binnify_regrid**: re-binning the chromosome sizes read back from a binned genome (the idiom
+`binnify(clr.chromsizes, b)`) is binning the original sizes: whatever width `b0` the stored table
+was made with, for every new width `b` (lengths of any magnitude: the model is over `Nat`). -/
+theorem binnify_regrid (sizes : List Nat) (b0 b : Nat) (hb0 : 1 ≤ b0) (hL : ∀ L ∈ sizes, 1 ≤ L) :
+    binnify ((getChromsizes (binnify sizes b0)).map Prod.snd) b = binnify sizes b := by
+  unfold binnify
+  rw [binnify_roundtrip b0 hb0 sizes 0 hL, zipIdx_swap_snd]
+
+example : binnify ((getChromsizes (binnify [25, 7, 10] 10)).map Prod.snd) 4 = binnify [25, 7, 10] 4 := by
+  decide
+
+
 end Cooler.C20
